@@ -55,7 +55,7 @@ func main() {
 		"checksum algebra: the same HRP+payload re-checksummed for the listed other remainders (Bech32m, 0, 2, 3, 0x3fffffff, every single-bit change of 1, six other ways of feeding the HRP into the checksum), and every 1-4 position substitution pattern that moves a valid string onto such a remainder (found by a meet-in-the-middle search over pair syndromes; counts per target under coverage.algebraic_search); patterns inside the HRP are not searched",
 		"exhaustive multi-substitution stage: all double substitutions over the full substitute alphabet (printable ASCII, non-ASCII/control set, fullwidth) within the last 8 characters, within the first 4 data characters and across the separator, out-of-alphabet at a checksum position x in-alphabet anywhere after the separator, and all triples of the last 3 characters, on base strings with l, q and p among their last six characters (listed in coverage); doubles elsewhere are sampled only",
 		"arguments-left-alone oracle: byte-slice arguments are sub-slices of sentinel-filled arenas (payload lengths 0-40; spare capacity 0, 1, 3, 4, 5, 64, rest of arena), strings are substrings of larger strings; the arena must be unchanged, adjacent payloads and prefix-then-whole records must print and parse back exactly, returned slices must not be shared or change later, repeated calls must agree",
-		"routes stage: decorated spellings (white space, CR, NBSP, U+3000, U+0085, U+2003, zero-width space, NUL, BOM, case) of valid native strings through the real cmd/age and age-keygen by -r, -R/-i files, -R -/-i - with standard input a pipe and a terminal, and age-keygen -y; not demanded: the line format of key files (LF with one CR removed, empty and # lines skipped, the terminal's CR->LF); plugin strings are not run through the tool (no plugin binary)",
+		"routes stage: decorated spellings (white space, CR, NBSP, U+3000, U+0085, U+2003, zero-width space, NUL, BOM, case; and 22 wrappings an un-quoting or un-escaping layer would undo: quotes of three kinds, hex, unicode and octal escapes, percent-encoding, HTML entities, trailing backslash, shell dollar-quote, YAML item, key: value, key=value, brackets, trailing comma or semicolon, JSON) of valid native strings through the real cmd/age and age-keygen by -r, -R/-i files, -R -/-i - with standard input a pipe and a terminal, and age-keygen -y; not demanded: the line format of key files (LF with one CR removed, empty and # lines skipped, the terminal's CR->LF); plugin strings are not run through the tool (no plugin binary)",
 		"sizes stage: plugin strings for payloads of 0-40, ~1 KiB, ~4 KiB, 5040-5130 (the string crosses 8192 characters), ~8 KiB, ~16 KiB, 64 KiB, 100 KiB (thorough: up to 1 MiB) bytes under a 1-, a 10- and a 60-character name go through Encode -> Parse -> plugin.NewRecipient / NewIdentity (.Name(), .Recipient().Name()); the tools' treatment of long plugin strings is recorded, not judged (documented line limit of -R files, no plugin binary)",
 		"combos stage: a spelling the library refuses (decorated, other case, prefix-only / payload-only case, KELVIN SIGN, LONG S, dotted/dotless I, one substituted or dropped character) next to the canonical spelling of the same key or another valid key, in 17 arrangements of repeated -r / --recipient, -R files, -i files for -d and -e -i; a byte-identical repeat is recorded, not judged",
 		"plugin names: exhaustive to length 2 (quick) / 3 (thorough) over the allowed set plus / \\ : space; payloads 0-64 bytes",
